@@ -52,8 +52,12 @@ _add(_c("lim_orth", "LIM", [3], [8], 0, None, dict(orthogonal=True)))
 _add(_c("lsn_orth_x2", "LSN", [4, 4], [6, 8, 6], 1, "lsn", dict(orthogonal=True), fpol="quad", pressure="quad", wall="slanted"))
 _add(_c("lsn_orth_g2", "LSN", [2, 2], [3, 4, 3], 2, "lsn", dict(orthogonal=True), fpol="quad"))
 
+# profile given only inside the separatrix, SOL part extrapolated (extrapolate_profiles needs psi_sol and psi_sol_inner given explicitly)
+_add(_c("lsn_orth_extrap", "LSN", [2, 2], [3, 4, 3], 1, "lsn", dict(orthogonal=True, extrapolate_profiles=True, psi_sol=0.7074, psi_sol_inner=0.7074),
+        fpol="quad", pressure="quad", psi1d_rmax=1.67))
+
 CORE_CAMPAIGN = ["lsn_orth", "usn_orth", "lsn_orth_rev", "lsn_nonorth", "lsn_nonorth_rev", "cdn_orth", "ldn_orth",
-                 "udn_nonorth", "core_orth", "lim_orth", "lsn_orth_x2", "lsn_orth_g2"]
+                 "udn_nonorth", "core_orth", "lim_orth", "lsn_orth_x2", "lsn_orth_g2", "lsn_orth_extrap"]
 
 # ---- extended campaign (thorough tier) ------------------------------------------------
 _add(_c("usn_nonorth", "USN", [2, 2], [3, 4, 3], 1, "usn", dict(orthogonal=False), fpol="quad"))
